@@ -30,6 +30,8 @@ member emitting the shared Int (witnessed violations).
 
 Round 6: (a0) the builder keeps class-body order; a run-wide all-ones mask kept on the shared
 Int is understood by the bit provenance; membership / init rules three-valued.
+Round 7: bits chosen by the truth of the value instead of the value modulo 2^width; (a0') an
+override of _describe_yourself never takes entries of the base description away.
 """
 import ast
 import copy
